@@ -57,9 +57,18 @@ package ice
 //@   props C17 C03 C20
 //@   requires p != nil
 //@   pure
-//@   ensures override: p.hasPriorityOverride ==> result == p.priorityOverride
-//@   ensures controlling: !p.hasPriorityOverride && p.iceRoleControlling ==> result == pairPrio(candPrio(p.Local.payload), candPrio(p.Remote.payload))
-//@   ensures controlled: !p.hasPriorityOverride && !p.iceRoleControlling ==> result == pairPrio(candPrio(p.Remote.payload), candPrio(p.Local.payload))
+//@   ensures the-formula-with-the-current-role-controlling: p.iceRoleControlling ==> result == pairPrio(candPrio(p.Local.payload), remotePrioOf(p))
+//@   ensures the-formula-with-the-current-role-controlled: !p.iceRoleControlling ==> result == pairPrio(remotePrioOf(p), candPrio(p.Local.payload))
+
+// The remote priority a pair is ranked with: the remote candidate's own, or — after a peer-reflexive remote
+// was replaced by the signalled candidate — the priority the pair was formed with. Only this input is
+// frozen; the role-dependent formula is applied afresh every time, so a role switch re-ranks such pairs too.
+//@ spec macro remotePrioOf(p *CandidatePair) = ite(p.hasRemotePriorityOverride, p.remotePriorityOverride, candPrio(p.Remote.payload))
+//@ func (*CandidatePair).remotePriority
+//@   props C17 C03 C20
+//@   requires p != nil
+//@   pure
+//@   ensures frozen-or-the-candidates-own: result == remotePrioOf(p)
 
 //@ lemma C17 pairPrioFits: forall g int, d int :: u32(g) && u32(d) ==> 0 <= pairPrio(g,d) && pairPrio(g,d) <= 18446744073709551615
 //@ lemma C17 pairPrioMonoG: forall g int, g2 int, d int :: u32(g) && u32(g2) && u32(d) && g <= g2 ==> pairPrio(g,d) <= pairPrio(g2,d)
